@@ -355,6 +355,21 @@ class Env(object):
         return st
 
     def busy(self):
+        def overrides(c, seen_c):
+            if id(c) in seen_c:
+                return 0
+            seen_c.add(id(c))
+            n = 1 if type(c).__name__ == "ConstraintOverrideModel" else 0
+            for x in getattr(c, "constraint_l", []) or []:
+                n += overrides(x, seen_c)
+            for attr in ("true_c", "false_c", "new_constraint", "orig_constraint"):
+                x = getattr(c, attr, None)
+                if x is not None:
+                    n += overrides(x, seen_c)
+            return n
+        return self.busy_(overrides)
+
+    def busy_(self, overrides):
         """field models that - with no call in progress - are still flagged as solved-for or still hold a solver node
         (every object the scenario created; names as the library prints them)"""
         out = []
@@ -368,6 +383,11 @@ class Env(object):
                 out.append("used_rand:" + str(getattr(m, "fullname", getattr(m, "name", "?"))))
             if getattr(m, "var", None) is not None:
                 out.append("var:" + str(getattr(m, "fullname", getattr(m, "name", "?"))))
+            # temporary rewrites of the constraint tree (foreach / dist expansions) still installed in a block of the object,
+            # dynamic blocks included
+            for cm in list(getattr(m, "constraint_model_l", []) or []) + list(getattr(m, "constraint_dynamic_model_l", []) or []):
+                if overrides(cm, set()):
+                    out.append("override:%s.%s" % (getattr(m, "name", "?"), getattr(cm, "name", "?")))
             for f in getattr(m, "field_l", []) or []:
                 walk(f)
             sz = getattr(m, "size", None)
